@@ -526,20 +526,76 @@ def rule_v2_rename(ctx):
     r.analysed(f)
     body = live_statements(f.node.body, {"inplace": True})
     got = _arm_views(cls, body)
+    from .fsa_rules import _view_aliases, _chain, view_of
+    aliases = _view_aliases(f.node.body)
+
+    def on_view(e):
+        base, _ = _chain(e, aliases)
+        if view_of(base):
+            return True
+        # a loop variable / local bound from a view's items()/values()
+        if isinstance(base, ast.Name):
+            for x in ast.walk(f.node):
+                if isinstance(x, (ast.For, ast.comprehension)) and any(
+                        isinstance(y, ast.Name) and y.id == base.id
+                        for y in ast.walk(x.target)):
+                    it = x.iter
+                    while isinstance(it, ast.Call) and isinstance(
+                            it.func, ast.Attribute):
+                        it = it.func.value
+                    b2, _ = _chain(it, aliases)
+                    if view_of(b2):
+                        return True
+        return False
     inplace_edits = []
     for st in body:
         for n in ast.walk(st):
-            if isinstance(n, ast.Assign):
-                for t in n.targets:
-                    if isinstance(t, ast.Subscript) and not (
-                            isinstance(t.value, ast.Attribute)
-                            and isinstance(t.value.value, ast.Name)
-                            and t.value.value.id == "self"
-                            and False):
+            if isinstance(n, (ast.Assign, ast.AugAssign)):
+                tg = n.targets if isinstance(n, ast.Assign) else [n.target]
+                for t in tg:
+                    if isinstance(t, ast.Subscript) and on_view(t.value):
                         inplace_edits.append(n)
             if isinstance(n, ast.Call) and isinstance(n.func, ast.Attribute) \
-                    and n.func.attr in ("pop", "update", "clear"):
+                    and n.func.attr in ("pop", "update", "clear", "append",
+                                        "extend", "remove", "setdefault") \
+                    and on_view(n.func.value):
                 inplace_edits.append(n)
+    # the renamed dictionary keeps every vertex: it is filled from an
+    # iteration over a vertex-complete view, not over the edges
+    rebuilt = None
+    for n in ast.walk(f.node):
+        if isinstance(n, ast.Call) and dotted(n.func) in (
+                "self._from_graph_dict", "FSA", "self.__class__") and n.args \
+                and isinstance(n.args[0], ast.Name):
+            rebuilt = n.args[0].id
+    src_bad = None
+    if rebuilt is not None:
+        sources = []
+        for n in ast.walk(f.node):
+            if isinstance(n, ast.Assign) and dotted(n.targets[0]) == rebuilt \
+                    and isinstance(n.value, ast.DictComp):
+                sources.append(n.value.generators[0].iter)
+            if isinstance(n, ast.For) and any(
+                    isinstance(x, (ast.Subscript, ast.Call))
+                    and rebuilt in dotted(x)
+                    for b in n.body for x in ast.walk(b)
+                    if isinstance(x, (ast.Subscript, ast.Call))):
+                # outermost loops only
+                if not any(isinstance(p, ast.For)
+                           for p in _ancestors(f, n)):
+                    sources.append(n.iter)
+        for it in sources:
+            t = dotted(it)
+            if "edges(" in t:
+                src_bad = it
+    if src_bad is not None:
+        r.violation(
+            "V2r", f"{f.fq}|edge-iteration", loc(f, src_bad),
+            dotted(src_bad)[:120],
+            f"the renamed dictionary `{rebuilt}` is filled by iterating "
+            "over the edges: a vertex without outgoing edges gets no key, "
+            "so it disappears from all three views of the renamed "
+            "automaton", instance="rename_generators[vertices]")
     ALL = {"out", "in", "graph"}
     if got >= ALL and not inplace_edits:
         r.ok("V2r", "rename_generators[inplace]", loc(f, f.node), "",
@@ -893,11 +949,21 @@ def rule_ref1(ctx):
                    "the row convention")
     f = ctx.p.get_function(HYP, "Subspace.reflection_across")
     r.analysed(f)
+    from ..norm import forward_subst
+    rets_s, _ = forward_subst(f.node)
     prod = None
-    for n in ast.walk(f.node):
-        if isinstance(n, ast.Assign) and isinstance(n.value, ast.BinOp) \
-                and isinstance(n.value.op, ast.MatMult):
-            prod = n
+    for e in rets_s:
+        if e is None:
+            continue
+        for n in ast.walk(e):
+            if isinstance(n, ast.Call) and dotted(n.func) == "Isometry" \
+                    and n.args and isinstance(n.args[0], ast.BinOp) \
+                    and isinstance(n.args[0].op, ast.MatMult):
+                prod = ast.Assign(targets=[ast.Name(id="refdata",
+                                                    ctx=ast.Store())],
+                                  value=n.args[0])
+                ast.copy_location(prod, n)
+                ast.fix_missing_locations(prod)
     if prod is None:
         r.note("REF1", loc(f, f.node), "reflection_across",
                "product idiom not recognised; not judged")
